@@ -1607,7 +1607,7 @@ func init() {
 				c07Run1(r, nil, c.Project, c.Layout, "replay", true)
 			}
 		},
-		Rule:               "projects (root object + registered types; every type registered in the root and in every other type) are printed and compiled on fresh objects. Reference model: each object is flattened depth-first (own members in written order, then the flattened members of every type of its allOf list in written order, transitively) while the refusal reasons are collected on the model: parent not registered (1302), parent not an object (704), cyclic chain incl. a type containing an object that inherits from it (703), a property name arriving twice (402), differing additionalProperties on an object and a parent or on two parents (705). Model accepts: root.Check() and every type's Check() must be nil; ordered key tree of Example() (encoding/json token stream), openapi.Dereference -> ObjectInformer.PropertiesInfos() (Key, Optional) and the compiled ObjectNode (Children/Key, nested objects recursively) must equal own-then-inherited; for objects carrying allOf: InheritedFrom of own members empty, of inherited members the type named in the allOf list or the type where the member is written; RequiredKeys constraint = the non-optional members (as a set). Model refuses (reason reachable from the root): Check() must fail; a code outside the applicable set is reported under the softer clause refusal-code. One accepted project in four is judged a second time with every object created with AreKeysOptionalByDefault (the model then takes a member as optional unless it says optional: false). Every case is executed twice on fresh objects (difference = nondeterministic) and every 4th also with all types compiled before the root. Workload: (0) placements: the inheriting object as root, member, array item, second array item, array item in a member, nested array item, root of a type, array item inside a type, member of a member of a type, over 6 parent shapes (plain, key shortcut first / last, chain, optional member, nested object member) and 6 variants (valid, parent missing, parent not an object, name clash, a quoted @K own key next to an inherited key shortcut, allOf as a list) - Example() must be the own members followed by the inherited ones, the invalid variants must be refused; (1) complete hand-shaped families: all pairs/triples/quadruples of additionalProperties values {absent,true,false,\"string\",\"integer\",\"@t\"} over child/parent, chain, two parents, nested object, diamond; 3^6 optional markings over a two-parent + chain graph; every refusal reason alone and in ordered pairs at 6 positions (root, nested in root, type, nested in type, unreachable type); nested objects with own allOf over 2 types; (2) ALL graphs over <= 3 types (quick: allOf lists <= 2 names; thorough: any list; + 2M sampled graphs over 4 types), each type string / array / object with member set {none, unique required+optional, shared key} and any ordered allOf list incl. itself, root with 3 member sets inheriting from the first k types, allOf written as \"@a\" or [\"@a\"]; (3) random projects (<= 5 types, key pools of 4 / 12 / unique names, optional true/false, nested objects to depth 2 with own allOf, additionalProperties, missing names, shuffled registration order, random layouts). distinct_nontrivial = distinct printed projects with a definite model verdict.",
+		Rule:               "projects (root object + registered types; every type registered in the root and in every other type) are printed and compiled on fresh objects. Reference model: each object is flattened depth-first (own members in written order, then the flattened members of every type of its allOf list in written order, transitively) while the refusal reasons are collected on the model: parent not registered (1302), parent not an object (704), cyclic chain incl. a type containing an object that inherits from it (703), a property name arriving twice (402), differing additionalProperties on an object and a parent or on two parents (705). Model accepts: root.Check() and every type's Check() must be nil; ordered key tree of Example() (encoding/json token stream), openapi.Dereference -> ObjectInformer.PropertiesInfos() (Key, Optional) and the compiled ObjectNode (Children/Key, nested objects recursively) must equal own-then-inherited; for objects carrying allOf: InheritedFrom of own members empty, of inherited members the type named in the allOf list or the type where the member is written; RequiredKeys constraint = the non-optional members (as a set). Model refuses (reason reachable from the root): Check() must fail; a code outside the applicable set is reported under the softer clause refusal-code. One accepted project in four is judged a second time with every object created with AreKeysOptionalByDefault (the model then takes a member as optional unless it says optional: false). Every case is executed twice on fresh objects (difference = nondeterministic) and every 4th also with all types compiled before the root. Workload: (0) placements: the inheriting object as root, member, array item, second array item, array item in a member, nested array item, root of a type, array item inside a type, member of a member of a type, over 6 parent shapes (plain, key shortcut first / last, chain, optional member, nested object member) and 8 variants (valid, parent missing, parent not an object, name clash, a quoted @K own key next to an inherited key shortcut, allOf as a list, the parent listed twice, the parent listed next to a type that inherits from it) - Example() must be the own members followed by the inherited ones, the invalid variants must be refused; (1) complete hand-shaped families: all pairs/triples/quadruples of additionalProperties values {absent,true,false,\"string\",\"integer\",\"@t\"} over child/parent, chain, two parents, nested object, diamond; 3^6 optional markings over a two-parent + chain graph; every refusal reason alone and in ordered pairs at 6 positions (root, nested in root, type, nested in type, unreachable type); nested objects with own allOf over 2 types; (2) ALL graphs over <= 3 types (quick: allOf lists <= 2 names; thorough: any list; + 2M sampled graphs over 4 types), each type string / array / object with member set {none, unique required+optional, shared key} and any ordered allOf list incl. itself, root with 3 member sets inheriting from the first k types, allOf written as \"@a\" or [\"@a\"]; (3) random projects (<= 5 types, key pools of 4 / 12 / unique names, optional true/false, nested objects to depth 2 with own allOf, additionalProperties, missing names, shuffled registration order, random layouts). distinct_nontrivial = distinct printed projects with a definite model verdict.",
 		MinNontrivialQuick: 150000, MinNontrivialThorough: 2000000,
 		MaxInconclusiveFrac: 0.01,
 		Assumptions: []string{
